@@ -81,12 +81,12 @@ def work(job):
         shutil.rmtree(wd, ignore_errors=True)
         return res
     res["states"] = c.nstates
-    wf = rtdiff.model().ask("wf", c.opts, c.mt)
+    wf = rtdiff.model().ask("wf", c.opts, c.mt, timeout=60)
     nospin = "noSpin=true" in wf
     yprog = "yieldProgress=true" in wf
     paths = ""
     if not nospin or not yprog:
-        paths = rtdiff.model().ask("spin", c.opts, c.mt)
+        paths = rtdiff.model().ask("spin", c.opts, c.mt, timeout=60)
         redirect = "ask:full:" in paths and "=true" in paths
         res["candidate"] = {"noSpin": nospin, "yieldProgress": yprog, "paths": paths[:600], "through_outofspace_redirect": redirect}
     n_runs = 6 if tier == "quick" else 20
@@ -97,7 +97,9 @@ def work(job):
         for k in range(400 if tier == "quick" else 2000):
             d = inputs.random_walk(c.dfa, rng, rng.randint(2, 60), p_follow=0.97)
             ops = rtdiff.feed_ops(c, d)
-            ml = c.run_model(ops)
+            ml = c.run_model(ops, timeout=20)
+            if ml == ["model-timeout"]:
+                break
             if any(" SPIN " in l or l.startswith("feed SPIN") or l.startswith("end SPIN") for l in ml):
                 found = d
                 break
@@ -111,7 +113,7 @@ def work(job):
         cl, status, err = c.run_c(ops, timeout=8)
         res["runs"] += 1
         if status == "timeout":
-            ml = c.run_model(ops)
+            ml = c.run_model(ops, timeout=20)
             res["viol"].append({"kind": "does-not-return", "input": data.hex(), "ops": ops, "args": c.args,
                                 "binary_tail": cl[-2:], "model_tail": ml[-2:],
                                 "through_outofspace_redirect": bool(res["candidate"] and res["candidate"]["through_outofspace_redirect"])})
